@@ -75,6 +75,8 @@ func (f *Mod) Call(s *slip.Scope, args slip.List, depth int) (result slip.Object
 			_ = z.Add(&z, div)
 		}
 		result = reduceNumber((*slip.Bignum)(&z))
+	case *slip.Ratio:
+		result = reduceNumber(floor(s, f, args, depth)[1])
 	case slip.Real:
 		div := (d.(slip.Real)).RealValue()
 		if div == 0.0 {
